@@ -136,6 +136,7 @@ func runC20(p *load.Program, r *oblig.Report) {
 	}
 	r.RequireCount(rule, len(sinks), 9)
 	c20FixedOffsets(p, r)
+	c20ConstIndex(p, r)
 }
 
 // c20FixedOffsets: RecordSet.ReadFrom looks at the magic byte of the next batch, at a fixed offset, before decoding
@@ -243,4 +244,87 @@ func crcCovered(p *load.Program, s an.TaintSink) (string, bool) {
 		}
 	}
 	return "", false
+}
+
+// c20ConstIndex: a Client method that takes element k of a slice decoded from the wire does so only on paths that
+// established len(slice) > k by a test of that length alone (`len(x) == 0 && other` lets the empty case through).
+func c20ConstIndex(p *load.Program, r *oblig.Report) {
+	const rule = "C20.R3 fixed indexes into decoded arrays are guarded by their length"
+	root := p.SSAPkg("")
+	n := 0
+	var bad []string
+	for _, fn := range p.ModuleFunctions() {
+		if fn.Pkg != root || fn.Signature.Recv() == nil || !an.NamedIs(fn.Signature.Recv().Type(), load.ModPath, "Client") {
+			continue
+		}
+		an.EachInstr(fn, func(ins ssa.Instruction) {
+			ia, ok := ins.(*ssa.IndexAddr)
+			if !ok {
+				return
+			}
+			k, isK := an.ConstInt(ia.Index)
+			if !isK {
+				return
+			}
+			if _, isSlice := ia.X.Type().Underlying().(*types.Slice); !isSlice {
+				return
+			}
+			// a slice loaded from a field of a decoded protocol message
+			ld, isLd := ia.X.(*ssa.UnOp)
+			if !isLd || ld.Op != token.MUL {
+				return
+			}
+			fa, isFA := ld.X.(*ssa.FieldAddr)
+			if !isFA {
+				return
+			}
+			nt, isNamed := deref(fa.X.Type()).(*types.Named)
+			if !isNamed || nt.Obj().Pkg() == nil || !strings.HasPrefix(nt.Obj().Pkg().Path(), protoPath) {
+				return
+			}
+			n++
+			want := clean(an.Shape(ld))
+			guarded := false
+			for d, child := ia.Block().Idom(), ia.Block(); d != nil; d, child = d.Idom(), d {
+				_, ci := an.IfCond(d)
+				if ci == nil {
+					continue
+				}
+				x := clean(an.Shape(ci.X))
+				if x != "len("+want+")" {
+					continue
+				}
+				c2, isC := an.ConstInt(ci.Y)
+				if !isC {
+					continue
+				}
+				// which successor has len > k ?
+				okIdx := -1
+				switch {
+				case ci.Edge(token.NEQ) >= 0 && c2 == 0 && k == 0:
+					okIdx = ci.Edge(token.NEQ)
+				case ci.Op == token.GTR && c2 >= k:
+					okIdx = 0
+				case ci.Op == token.GEQ && c2 > k:
+					okIdx = 0
+				case ci.Op == token.LSS && c2 <= k+1 && c2 > k:
+					okIdx = 1
+				case ci.Op == token.LEQ && c2 >= k:
+					okIdx = 1
+				}
+				if okIdx >= 0 && ci.Neg && ci.Edge(token.NEQ) < 0 {
+					okIdx = 1 - okIdx
+				}
+				if okIdx >= 0 && edgeControls(d, okIdx, child) {
+					guarded = true
+				}
+			}
+			if !guarded {
+				bad = append(bad, fmt.Sprintf("%s takes %s[%d] at %s on a path that did not establish its length", an.ShortFunc(fn), want, k, p.Pos(ia.Pos())))
+			}
+		})
+	}
+	sort.Strings(bad)
+	r.Check(len(bad) == 0, rule, "Client methods index decoded arrays at a constant position only under a test of that array's length", "-", fmt.Sprintf("%d sites examined", n), strings.Join(bad, "; "))
+	r.RequireCount(rule, n, 1)
 }
